@@ -69,7 +69,7 @@ func runC05(r *simkit.Run) {
 		b := append(append([]byte{}, h[:]...), h[:]...)
 		return b[:idLen]
 	}
-	topics := []string{"decryptionKeyShares", "decryptionKeys", "eonPublicKey", "decryptionTrigger", "primevCommitment"}
+	topics := []string{"decryptionKeyShares", "decryptionKeys", "EonPublicKey", "decryptionTrigger", "primevCommitment"}
 	members := make([]*simtm.Key, n)
 	for i := range members {
 		members[i] = simtm.DetKey(fmt.Sprintf("keyper-%d", i))
